@@ -76,6 +76,7 @@ func vhSnapshot(s *Server) string {
 type vhCmd struct {
 	args  []string
 	class int // 0 = data-modifying, 1 = read (needs caught-up), 2 = always answered, 3 = system/other
+	logs  [][]string // what the log must hold when the command changes something (nil: the command itself)
 }
 
 const (
@@ -87,49 +88,59 @@ const (
 
 func vhCommandTable() []vhCmd {
 	return []vhCmd{
-		{[]string{"SET", "fleet", "truck3", "POINT", "1", "2"}, vhWrite},
-		{[]string{"SET", "fleet", "truck1", "FIELD", "speed", "7", "POINT", "5", "6"}, vhWrite},
-		{[]string{"DEL", "fleet", "truck1"}, vhWrite},
-		{[]string{"PDEL", "fleet", "truck*"}, vhWrite},
-		{[]string{"DROP", "fleet"}, vhWrite},
-		{[]string{"FSET", "fleet", "truck1", "speed", "10"}, vhWrite},
-		{[]string{"FLUSHDB"}, vhWrite},
-		{[]string{"RENAME", "fleet", "cars"}, vhWrite},
-		{[]string{"RENAMENX", "fleet", "cars"}, vhWrite},
-		{[]string{"EXPIRE", "fleet", "truck1", "10"}, vhWrite},
-		{[]string{"PERSIST", "fleet", "truck4"}, vhWrite},
-		{[]string{"JSET", "user", "u1", "age", "5"}, vhWrite},
-		{[]string{"JDEL", "user", "u1", "name"}, vhWrite},
-		{[]string{"SETCHAN", "ch2", "WITHIN", "fleet", "FENCE", "BOUNDS", "0", "0", "1", "1"}, vhWrite},
-		{[]string{"DELCHAN", "ch1"}, vhWrite},
-		{[]string{"PDELCHAN", "ch*"}, vhWrite},
-		{[]string{"DELHOOK", "ch1"}, vhWrite},
-		{[]string{"PDELHOOK", "*"}, vhWrite},
-		{[]string{"TIMEOUT", "1", "SET", "fleet", "truck5", "POINT", "1", "2"}, vhWrite},
-		{[]string{"GET", "fleet", "truck1"}, vhRead},
-		{[]string{"KEYS", "*"}, vhRead},
-		{[]string{"SCAN", "fleet"}, vhRead},
-		{[]string{"SEARCH", "fleet"}, vhRead},
-		{[]string{"WITHIN", "fleet", "BOUNDS", "0", "0", "50", "50"}, vhRead},
-		{[]string{"INTERSECTS", "fleet", "BOUNDS", "0", "0", "50", "50"}, vhRead},
-		{[]string{"TTL", "fleet", "truck4"}, vhRead},
-		{[]string{"TYPE", "fleet"}, vhRead},
-		{[]string{"EXISTS", "fleet", "truck1"}, vhRead},
-		{[]string{"FEXISTS", "fleet", "truck1", "speed"}, vhRead},
-		{[]string{"FGET", "fleet", "truck1", "speed"}, vhRead},
-		{[]string{"JGET", "user", "u1", "name"}, vhRead},
-		{[]string{"BOUNDS", "fleet"}, vhRead},
-		{[]string{"HOOKS", "*"}, vhRead},
-		{[]string{"CHANS", "*"}, vhRead},
-		{[]string{"PING"}, vhOpen},
-		{[]string{"ECHO", "hi"}, vhOpen},
-		{[]string{"OUTPUT", "json"}, vhOpen},
-		{[]string{"HEALTHZ"}, vhOpen},
-		{[]string{"STATS", "fleet"}, vhOther},
-		{[]string{"READONLY", "yes"}, vhOther},
-		{[]string{"CONFIG", "GET", "requirepass"}, vhOther},
-		{[]string{"TEST", "POINT", "1", "2", "WITHIN", "BOUNDS", "0", "0", "5", "5"}, vhOther},
-		{[]string{"NOSUCHCOMMAND", "x"}, vhOther},
+		{[]string{"SET", "fleet", "truck3", "POINT", "1", "2"}, vhWrite, nil},
+		{[]string{"SET", "fleet", "truck1", "FIELD", "speed", "7", "POINT", "5", "6"}, vhWrite, nil},
+		{[]string{"DEL", "fleet", "truck1"}, vhWrite, nil},
+		{[]string{"PDEL", "fleet", "truck*"}, vhWrite, nil},
+		{[]string{"DROP", "fleet"}, vhWrite, nil},
+		{[]string{"FSET", "fleet", "truck1", "speed", "10"}, vhWrite, nil},
+		{[]string{"FLUSHDB"}, vhWrite, nil},
+		{[]string{"RENAME", "fleet", "cars"}, vhWrite, nil},
+		{[]string{"RENAMENX", "fleet", "cars"}, vhWrite, nil},
+		{[]string{"EXPIRE", "fleet", "truck1", "10"}, vhWrite, nil},
+		{[]string{"PERSIST", "fleet", "truck4"}, vhWrite, nil},
+		{[]string{"JSET", "user", "u1", "age", "5"}, vhWrite, nil},
+		{[]string{"JDEL", "user", "u1", "name"}, vhWrite, nil},
+		{[]string{"SETCHAN", "ch2", "WITHIN", "fleet", "FENCE", "BOUNDS", "0", "0", "1", "1"}, vhWrite, nil},
+		{[]string{"DELCHAN", "ch1"}, vhWrite, nil},
+		{[]string{"PDELCHAN", "ch*"}, vhWrite, nil},
+		{[]string{"DELHOOK", "ch1"}, vhWrite, nil},
+		{[]string{"PDELHOOK", "*"}, vhWrite, nil},
+		{[]string{"TIMEOUT", "1", "SET", "fleet", "truck5", "POINT", "1", "2"}, vhWrite, nil},
+		// scripts: the writes they make are logged as the inner commands (C18)
+		{[]string{"EVAL", "return tile38.call('set','fleet','truck9','POINT',1,2)", "0"}, vhWrite,
+			[][]string{{"set", "fleet", "truck9", "POINT", "1", "2"}}},
+		{[]string{"EVAL", "tile38.call('set','fleet','truck9','POINT',1,2) return tile38.call('del','fleet','truck1')", "0"}, vhWrite,
+			[][]string{{"set", "fleet", "truck9", "POINT", "1", "2"}, {"del", "fleet", "truck1"}}},
+		{[]string{"EVALNA", "return tile38.call('set','fleet','truck9','POINT',1,2)", "0"}, vhWrite,
+			[][]string{{"set", "fleet", "truck9", "POINT", "1", "2"}}},
+		{[]string{"EVALRO", "return tile38.call('set','fleet','truck9','POINT',1,2)", "0"}, vhRead, nil},
+		{[]string{"EVALRO", "return tile38.call('get','fleet','truck1')", "0"}, vhRead, nil},
+		{[]string{"EVALRO", "return tile38.call('jdel','user','u1','name')", "0"}, vhRead, nil},
+		{[]string{"GET", "fleet", "truck1"}, vhRead, nil},
+		{[]string{"KEYS", "*"}, vhRead, nil},
+		{[]string{"SCAN", "fleet"}, vhRead, nil},
+		{[]string{"SEARCH", "fleet"}, vhRead, nil},
+		{[]string{"WITHIN", "fleet", "BOUNDS", "0", "0", "50", "50"}, vhRead, nil},
+		{[]string{"INTERSECTS", "fleet", "BOUNDS", "0", "0", "50", "50"}, vhRead, nil},
+		{[]string{"TTL", "fleet", "truck4"}, vhRead, nil},
+		{[]string{"TYPE", "fleet"}, vhRead, nil},
+		{[]string{"EXISTS", "fleet", "truck1"}, vhRead, nil},
+		{[]string{"FEXISTS", "fleet", "truck1", "speed"}, vhRead, nil},
+		{[]string{"FGET", "fleet", "truck1", "speed"}, vhRead, nil},
+		{[]string{"JGET", "user", "u1", "name"}, vhRead, nil},
+		{[]string{"BOUNDS", "fleet"}, vhRead, nil},
+		{[]string{"HOOKS", "*"}, vhRead, nil},
+		{[]string{"CHANS", "*"}, vhRead, nil},
+		{[]string{"PING"}, vhOpen, nil},
+		{[]string{"ECHO", "hi"}, vhOpen, nil},
+		{[]string{"OUTPUT", "json"}, vhOpen, nil},
+		{[]string{"HEALTHZ"}, vhOpen, nil},
+		{[]string{"STATS", "fleet"}, vhOther, nil},
+		{[]string{"READONLY", "yes"}, vhOther, nil},
+		{[]string{"CONFIG", "GET", "requirepass"}, vhOther, nil},
+		{[]string{"TEST", "POINT", "1", "2", "WITHIN", "BOUNDS", "0", "0", "5", "5"}, vhOther, nil},
+		{[]string{"NOSUCHCOMMAND", "x"}, vhOther, nil},
 	}
 }
 
@@ -139,6 +150,8 @@ func vhGateServer() (*Server, *vhLock) {
 	s.mu = lk
 	s.aof = new(os.File) // never touched: writeAOF only appends to the buffer
 	s.loadedAndReady.Store(true)
+	s.luascripts = s.newScriptMap()
+	s.luapool = s.newPool()
 	vhDo(s, "SET", "fleet", "truck1", "FIELD", "speed", "90", "POINT", "33", "-115")
 	vhDo(s, "SET", "fleet", "truck2", "STRING", "hello")
 	vhDo(s, "SET", "fleet", "truck4", "EX", "100", "POINT", "3", "4")
@@ -211,6 +224,10 @@ func VH_C15_gates() {
 	vassert("C15.no_transport_error", err == nil)
 	vassert("C15.exactly_one_reply", len(out) > 0)
 
+	// the authenticated flag is only ever set by presenting the password
+	if !authd && client.authd {
+		vassert("C15.authenticated_only_by_password", passSet && authHdr == 1)
+	}
 	unauth := passSet && !authd && authHdr != 1
 	// (a) password gate
 	if unauth {
@@ -238,7 +255,14 @@ func VH_C15_gates() {
 		vassert("C07.K1.change_complete_at_unlock", lk.snapAtUnlock == after)
 		vassert("C03.K1.change_is_logged", logged)
 		vassert("C03.K1.logged_before_unlock", lk.aofAtUnlock == len(s.aofbuf))
-		vassert("C03.K1.log_holds_original_arguments", string(s.aofbuf[aofBefore:]) == string(vhEncode(msg.Args...)))
+		var wantLog []byte
+		if c.logs == nil {
+			wantLog = vhEncode(msg.Args...)
+		}
+		for _, l := range c.logs {
+			wantLog = append(wantLog, vhEncode(l...)...)
+		}
+		vassert("C03.K1.log_holds_original_arguments", string(s.aofbuf[aofBefore:]) == string(wantLog))
 	}
 	if logged {
 		vassert("C03.K1.only_changes_are_logged_under_lock", strings.HasPrefix(lk.log, "L"))
